@@ -1284,3 +1284,86 @@ def comment_option_owner_rule(m, rid):
                    "items skipped by that call are never given back, so they vanish from the tree -- under one standard only, if the "
                    "matcher belongs to one grammar" % (q, v, A.text(c)[:60]), m.loc(f, c))
     return r
+
+
+# ------------------------------------------------------------------------------------------------
+# C06.R24: the class dispatch of Base.__new__ terminates when nothing matches
+# ------------------------------------------------------------------------------------------------
+def dispatch_terminates_rule(m, rid):
+    """Base.__new__ is interpreted on synthetic rule classes whose matchers never match and whose registry entries refer back to
+    classes already being tried (the shape of the 2008 classes Format_Item and Proc_Decl, which are registered under their own
+    name): the outcome has to be NoMatchError, not an unbounded recursion."""
+    from sa import pureeval as PE
+    r = RuleResult(rid, "the class dispatch of Base.__new__ terminates: interpreted on synthetic rule classes that never match and "
+                        "whose registered alternatives lead back to a class already being tried (a class registered under its own "
+                        "name, two classes naming each other, a chain that closes), it ends in NoMatchError -- never in an "
+                        "unbounded recursion, which would escape as RecursionError instead of a syntax error")
+    r.floor = 4
+    k = m.key("Base", "fparser.two.utils")
+    f = m.method(k, "__new__") if k else None
+    if f is None:
+        r.error("Base.__new__ vanished")
+        return r
+    scenarios = [
+        ("a class registered under its own name", {"A": ["A", "B"], "B": []}, "A"),
+        ("two classes that name each other", {"A": ["B"], "B": ["A"]}, "A"),
+        ("a chain of three that closes", {"A": ["B"], "B": ["C"], "C": ["A", "B"]}, "A"),
+        ("own name behind another alternative, entered from a parent", {"P": ["A"], "A": ["B", "A"], "B": []}, "P"),
+    ]
+    for title, registry, start in scenarios:
+        r.instances += 1
+        depth = [0]
+        deepest = [0]
+
+        class Cls(PE.Obj):
+            def __init__(self, name):
+                PE.Obj.__init__(self, {"__name__": name, "match": lambda s: None})
+                self.name = name
+
+            def __call__(self, string, parent_cls=None, _deepcopy=False):
+                depth[0] += 1
+                deepest[0] = max(deepest[0], depth[0])
+                try:
+                    if depth[0] > 40:
+                        raise PE.Unsupported("recursion")
+                    return ev.run_function(f.node, [self, string], {"parent_cls": parent_cls, "_deepcopy": _deepcopy},
+                                           env0={"super": lambda *a: (_ for _ in ()).throw(PE.Unsupported("super()"))})
+                finally:
+                    depth[0] -= 1
+
+            def __repr__(self):
+                return "<class %s>" % self.name
+        classes = {n: Cls(n) for n in registry}
+        ev = PE.Evaluator({}, max_steps=400000)
+        ev.g["Base"] = PE.Obj({"subclasses": {n: [classes[x] for x in alts] for n, alts in registry.items()}})
+        ev.g["FortranReaderBase"] = type("FortranReaderBase", (), {})
+        ev.g["BlockBase"] = type("BlockBase", (), {})
+        ev.g["readfortran"] = PE.Obj({"Comment": type("Comment", (), {})})
+        ev.g["NoMatchError"] = "NoMatchError"
+        ev.g["getattr"] = lambda o, n, *d: (o.fields[n] if n in o.fields else (d[0] if d else (_ for _ in ()).throw(PE.PyRaise("AttributeError", n))))
+        ev.g["hasattr"] = lambda o, n: isinstance(o, PE.Obj) and n in o.fields
+        ev.g["issubclass"] = lambda a, b: False
+        ev.g["isinstance"] = lambda o, t: isinstance(o, t) if isinstance(t, (type, tuple)) else False
+        ev.g["_set_parent"] = lambda *a, **kw: None
+        ev.g["object"] = PE.Obj({"__new__": lambda c: PE.Obj({})})
+        outcome = None
+        try:
+            classes[start]("10 format (3q)")
+            outcome = "returns a value"
+        except PE.PyRaise as err:
+            outcome = err.exc_type
+        except PE.Unsupported as err:
+            outcome = "recursion" if "recursion" in str(err) or "step budget" in str(err) else None
+            if outcome is None:
+                r.error("Base.__new__ cannot be interpreted statically (%s)" % err)
+                return r
+        except RecursionError:
+            outcome = "recursion"
+        ok = outcome == "NoMatchError"
+        r.ob(ok, "%s: %s at depth %d" % (title, outcome, deepest[0]))
+        if not ok:
+            r.fail("Base.__new__|dispatch|%s" % title[:30], "Base.__new__, interpreted on %s (registry %r, nothing matches): %s -- expected "
+                   "NoMatchError.  The list of classes being tried no longer stops the dispatch from re-entering a class, so an input "
+                   "no alternative accepts ends in RecursionError" % (title, registry, "the dispatch re-enters the classes without end"
+                                                                      if outcome == "recursion" else outcome), m.loc(f))
+    return r
